@@ -1,5 +1,515 @@
+//! C02 — every read API describes one and the same graph.
+use super::lifecycle::{self, Arms};
+use super::{Prop, Tier};
 use crate::core::case::*;
-use crate::core::model::Model;
-use crate::core::real::G;
-use crate::runner::Ctx;
-pub fn check_views(_i: usize, _g: &G, _m: &Model, _in_sync: bool, _case: &Case, _cx: &mut Ctx) {}
+use crate::core::model::{canon_edges, Model, K, ME};
+use crate::core::real::{self, G};
+use crate::core::rng::Rng;
+use crate::core::rt::{self, Panicked};
+use crate::gen;
+use crate::runner::{Ctx, EnvResult};
+use graphrs::{Edge, Error, Node};
+use std::collections::BTreeSet;
+use std::sync::Arc;
+
+pub struct C02Prop;
+pub static C02: C02Prop = C02Prop;
+
+const B: u64 = real::OP_BUDGET;
+type Canon = Vec<(String, String, u64, Option<u32>)>;
+
+fn canon_real(directed: bool, v: &[&Arc<Edge<String, u32>>]) -> Canon {
+    canon_edges(directed, v.iter().map(|e| (e.u.clone(), e.v.clone(), wbits(e.weight), e.attributes)), false)
+}
+fn canon_model<'a>(directed: bool, it: impl Iterator<Item = &'a ME>) -> Canon {
+    canon_edges(directed, it.map(|e| (e.u.clone(), e.v.clone(), e.w, e.attr)), false)
+}
+fn names_of(v: &[&Arc<Node<String, u32>>]) -> Vec<String> {
+    v.iter().map(|n| n.name.clone()).collect()
+}
+fn sorted(mut v: Vec<String>) -> Vec<String> {
+    v.sort();
+    v
+}
+fn has_dups(v: &[String]) -> bool {
+    let s: BTreeSet<&String> = v.iter().collect();
+    s.len() != v.len()
+}
+
+/// what a fallible query answered, reduced to what C02 talks about
+fn err_kind<T>(r: &Result<T, Error>) -> Option<K> {
+    r.as_ref().err().map(|e| real::kind(&e.kind))
+}
+
+struct Chk<'a> {
+    cx: &'a mut Ctx,
+    step: usize,
+    specs: Specs,
+}
+impl<'a> Chk<'a> {
+    fn fail(&mut self, oracle: &str, sig: &str, detail: String) {
+        let d = format!("after step {}: {} [{}]", self.step, detail, self.specs.short());
+        self.cx.fail(oracle, sig, d);
+    }
+    fn panic(&mut self, api: &str, p: &Panicked) {
+        self.fail("C02.panic", &format!("{} panicked", api), format!("{} panicked: {}", api, p.0));
+    }
+    /// expect an error of one of the given kinds
+    fn expect_err<T>(&mut self, api: &str, args: &str, r: &Result<T, Error>, kinds: &[K]) {
+        match err_kind(r) {
+            Some(k) if kinds.contains(&k) => {
+                self.cx.count(&format!("err.{:?}", k));
+            }
+            other => self.fail("C02.error_kind", &format!("{} expected {:?} got {:?}", api, kinds, other), format!("{}({}) must fail with {:?} but answered {:?}", api, args, kinds, other.map(|k| format!("Err({:?})", k)).unwrap_or("Ok".into()))),
+        }
+    }
+}
+
+/// Cross-check every query against the reference state (the model, which at this point equals what
+/// get_all_nodes / get_all_edges show; `in_sync` says whether its insertion order is trustworthy).
+pub fn check_views(step: usize, g: &G, m: &Model, in_sync: bool, case: &Case, cx: &mut Ctx) {
+    let s = m.specs;
+    let directed = s.directed;
+    let mut c = Chk { cx, step, specs: s };
+    let mut universe = case.universe();
+    universe.push("~absent1".to_string());
+    universe.push("~absent2".to_string());
+    let node_names: Vec<String> = m.nodes.iter().map(|n| n.0.clone()).collect();
+    let has = |x: &str| node_names.iter().any(|n| n == x);
+
+    macro_rules! q {
+        ($label:expr, $e:expr) => {
+            match rt::call($label, B, || $e) {
+                Ok(v) => v,
+                Err(p) => {
+                    c.panic($label, &p);
+                    return;
+                }
+            }
+        };
+    }
+
+    // ---- nodes ------------------------------------------------------------------------------
+    let n_real = q!("number_of_nodes", g.number_of_nodes());
+    if n_real != node_names.len() {
+        c.fail("C02.number_of_nodes", "number_of_nodes", format!("number_of_nodes() = {} but get_all_nodes has {}", n_real, node_names.len()));
+    }
+    let all_names: Vec<String> = q!("get_all_node_names", g.get_all_node_names().into_iter().cloned().collect());
+    if all_names != node_names {
+        c.fail("C02.node_names", "get_all_node_names", format!("get_all_node_names {:?} vs get_all_nodes {:?}", all_names, node_names));
+    }
+    for x in &universe {
+        let h = q!("has_node", g.has_node(x));
+        if h != has(x) {
+            c.fail("C02.has_node", "has_node", format!("has_node({:?}) = {} but the node list says {}", x, h, has(x)));
+        }
+        let n = q!("get_node", g.get_node(x.clone()).map(|n| (n.name.clone(), n.attributes)));
+        let exp = m.nodes.iter().find(|n| &n.0 == x).cloned();
+        if n != exp {
+            c.fail("C02.get_node", "get_node", format!("get_node({:?}) = {:?}, expected {:?}", x, n, exp));
+        }
+    }
+    for i in 0..=node_names.len() {
+        let n = q!("get_node_by_index", g.get_node_by_index(&i).map(|n| (n.name.clone(), n.attributes)));
+        let exp = m.nodes.get(i).cloned();
+        if n != exp {
+            c.fail("C02.get_node_by_index", "get_node_by_index", format!("get_node_by_index({}) = {:?}, expected {:?}", i, n, exp));
+        }
+    }
+
+    // ---- pairs ------------------------------------------------------------------------------
+    for a in &universe {
+        for b in &universe {
+            let both = has(a) && has(b);
+            let joining: Vec<&ME> = m.edges.iter().filter(|e| m.joins(e, a, b)).collect();
+            if !s.multi {
+                let r = q!("get_edge", g.get_edge(a.clone(), b.clone()).map(|e| vec![(e.u.clone(), e.v.clone(), wbits(e.weight), e.attributes)]));
+                if !both {
+                    c.expect_err("get_edge", &format!("{:?},{:?}", a, b), &r, &[K::NodeNotFound]);
+                } else if joining.is_empty() {
+                    c.expect_err("get_edge", &format!("{:?},{:?}", a, b), &r, &[K::EdgeNotFound]);
+                } else {
+                    let exp = canon_model(directed, joining.iter().copied());
+                    match r {
+                        Ok(v) => {
+                            let got = canon_edges(directed, v.into_iter(), false);
+                            if got != exp {
+                                c.fail("C02.get_edge", "get_edge wrong edge", format!("get_edge({:?},{:?}) = {:?}, the stored edge is {:?}", a, b, lifecycle::show_edges(&got), lifecycle::show_edges(&exp)));
+                            }
+                        }
+                        Err(e) => c.fail("C02.get_edge", &format!("get_edge missing edge {:?}", real::kind(&e.kind)), format!("get_edge({:?},{:?}) failed with {:?} but get_all_edges holds {:?}", a, b, e.kind, lifecycle::show_edges(&exp))),
+                    }
+                }
+                let r2 = q!("get_edges", g.get_edges(a.clone(), b.clone()).map(|v| v.len()));
+                let kinds: &[K] = if both { &[K::WrongMethod] } else { &[K::WrongMethod, K::NodeNotFound] };
+                c.expect_err("get_edges", &format!("{:?},{:?} on a single-edge graph", a, b), &r2, kinds);
+            } else {
+                let r = q!("get_edges", g.get_edges(a.clone(), b.clone()).map(|v| v.iter().map(|e| (e.u.clone(), e.v.clone(), wbits(e.weight), e.attributes)).collect::<Vec<_>>()));
+                if !both {
+                    c.expect_err("get_edges", &format!("{:?},{:?}", a, b), &r, &[K::NodeNotFound]);
+                } else if joining.is_empty() {
+                    c.expect_err("get_edges", &format!("{:?},{:?}", a, b), &r, &[K::EdgeNotFound]);
+                } else {
+                    match r {
+                        Ok(v) => {
+                            let exp_sorted = canon_model(directed, joining.iter().copied());
+                            let got_sorted = canon_edges(directed, v.iter().cloned(), false);
+                            if got_sorted != exp_sorted {
+                                c.fail("C02.get_edges", "get_edges wrong multiset", format!("get_edges({:?},{:?}) = {:?}, stored parallel edges are {:?}", a, b, lifecycle::show_edges(&got_sorted), lifecycle::show_edges(&exp_sorted)));
+                            } else if in_sync {
+                                // insertion order of the parallel edges (orientation of the stored object is not compared)
+                                let norm = |u: &String, v: &String| if !directed && u > v { (v.clone(), u.clone()) } else { (u.clone(), v.clone()) };
+                                let exp_seq: Vec<_> = joining.iter().map(|e| (norm(&e.u, &e.v), e.w, e.attr)).collect();
+                                let got_seq: Vec<_> = v.iter().map(|e| (norm(&e.0, &e.1), e.2, e.3)).collect();
+                                if exp_seq != got_seq {
+                                    c.fail("C02.parallel_order", "get_edges order", format!("get_edges({:?},{:?}) returns the parallel edges as {:?} but they were inserted as {:?}", a, b, got_seq, exp_seq));
+                                }
+                                if joining.len() >= 2 {
+                                    c.cx.count("probe.parallel_edges_ordered");
+                                }
+                            }
+                        }
+                        Err(e) => c.fail("C02.get_edges", &format!("get_edges missing {:?}", real::kind(&e.kind)), format!("get_edges({:?},{:?}) failed with {:?} but {} parallel edges are stored", a, b, e.kind, joining.len())),
+                    }
+                }
+                let r2 = q!("get_edge", g.get_edge(a.clone(), b.clone()).map(|_| ()));
+                let kinds: &[K] = if both { &[K::WrongMethod] } else { &[K::WrongMethod, K::NodeNotFound] };
+                c.expect_err("get_edge", &format!("{:?},{:?} on a multi-edge graph", a, b), &r2, kinds);
+            }
+            if !c.cx.viol.is_empty() {
+                return;
+            }
+        }
+    }
+
+    // ---- per node ---------------------------------------------------------------------------
+    let succ_of = |x: &str| -> Vec<String> {
+        let mut v: BTreeSet<String> = BTreeSet::new();
+        for e in &m.edges {
+            if e.u == x {
+                v.insert(e.v.clone());
+            }
+            if !directed && e.v == x {
+                v.insert(e.u.clone());
+            }
+        }
+        v.into_iter().collect()
+    };
+    let pred_of = |x: &str| -> Vec<String> {
+        let mut v: BTreeSet<String> = BTreeSet::new();
+        for e in &m.edges {
+            if e.v == x {
+                v.insert(e.u.clone());
+            }
+            if !directed && e.u == x {
+                v.insert(e.v.clone());
+            }
+        }
+        v.into_iter().collect()
+    };
+    for x in &universe {
+        let present = has(x);
+        // all edges touching x
+        let r = q!("get_edges_for_node", g.get_edges_for_node(x.clone()).map(|v| canon_real(directed, &v)));
+        if !present {
+            c.expect_err("get_edges_for_node", &format!("{:?}", x), &r, &[K::NodeNotFound]);
+        } else {
+            let exp = canon_model(directed, m.edges.iter().filter(|e| &e.u == x || &e.v == x));
+            match r {
+                Ok(got) => {
+                    if got != exp {
+                        let loops = m.edges.iter().filter(|e| &e.u == x && &e.v == x).count();
+                        let sig = if directed && loops > 0 && got.len() == exp.len() + loops { "get_edges_for_node lists a directed self-loop twice" } else { "get_edges_for_node mismatch" };
+                        c.fail("C02.edges_for_node", sig, format!("get_edges_for_node({:?}) = {:?} but the stored edges touching it are {:?}", x, lifecycle::show_edges(&got), lifecycle::show_edges(&exp)));
+                    }
+                }
+                Err(e) => c.fail("C02.edges_for_node", "get_edges_for_node failed", format!("get_edges_for_node({:?}) failed with {:?}", x, e.kind)),
+            }
+        }
+        for (api, is_in) in [("get_in_edges_for_node", true), ("get_out_edges_for_node", false)] {
+            let r = q!(api, if is_in { g.get_in_edges_for_node(x.clone()) } else { g.get_out_edges_for_node(x.clone()) }.map(|v| canon_real(directed, &v)));
+            if !directed {
+                let kinds: &[K] = if present { &[K::WrongMethod] } else { &[K::WrongMethod, K::NodeNotFound] };
+                c.expect_err(api, &format!("{:?} on an undirected graph", x), &r, kinds);
+            } else if !present {
+                c.expect_err(api, &format!("{:?}", x), &r, &[K::NodeNotFound]);
+            } else {
+                let exp = canon_model(true, m.edges.iter().filter(|e| if is_in { &e.v == x } else { &e.u == x }));
+                match r {
+                    Ok(got) if got == exp => {}
+                    Ok(got) => c.fail("C02.in_out_edges", api, format!("{}({:?}) = {:?}, expected {:?}", api, x, lifecycle::show_edges(&got), lifecycle::show_edges(&exp))),
+                    Err(e) => c.fail("C02.in_out_edges", api, format!("{}({:?}) failed with {:?}", api, x, e.kind)),
+                }
+            }
+        }
+        for (api, want_succ) in [("get_successor_nodes", true), ("get_predecessor_nodes", false)] {
+            let r = q!(api, if want_succ { g.get_successor_nodes(x.clone()) } else { g.get_predecessor_nodes(x.clone()) }.map(|v| names_of(&v)));
+            let rn = q!(api, if want_succ { g.get_successor_node_names(x.clone()) } else { g.get_predecessor_node_names(x.clone()) }.map(|v| v.into_iter().cloned().collect::<Vec<String>>()));
+            if !directed {
+                let kinds: &[K] = if present { &[K::WrongMethod] } else { &[K::WrongMethod, K::NodeNotFound] };
+                c.expect_err(api, &format!("{:?} on an undirected graph", x), &r, kinds);
+                c.expect_err(&format!("{}_names", api), &format!("{:?} on an undirected graph", x), &rn, kinds);
+            } else if !present {
+                c.expect_err(api, &format!("{:?}", x), &r, &[K::NodeNotFound]);
+                c.expect_err(&format!("{}_names", api), &format!("{:?}", x), &rn, &[K::NodeNotFound]);
+            } else {
+                let exp = if want_succ { succ_of(x) } else { pred_of(x) };
+                for (which, got) in [(api.to_string(), r.ok()), (format!("{}_names", api), rn.ok())] {
+                    match got {
+                        Some(v) => {
+                            if has_dups(&v) || sorted(v.clone()) != exp {
+                                c.fail("C02.adjacent_nodes", &which, format!("{}({:?}) = {:?}, expected the set {:?}", which, x, v, exp));
+                            }
+                        }
+                        None => c.fail("C02.adjacent_nodes", &which, format!("{}({:?}) failed on a directed graph holding the node", which, x)),
+                    }
+                }
+            }
+        }
+        // neighbours
+        let r = q!("get_neighbor_nodes", g.get_neighbor_nodes(x.clone()).map(|v| names_of(&v)));
+        if !present {
+            c.expect_err("get_neighbor_nodes", &format!("{:?}", x), &r, &[K::NodeNotFound]);
+        } else {
+            let mut exp: BTreeSet<String> = succ_of(x).into_iter().collect();
+            exp.extend(pred_of(x));
+            let exp: Vec<String> = exp.into_iter().collect();
+            match r {
+                Ok(v) => {
+                    if has_dups(&v) || sorted(v.clone()) != exp {
+                        c.fail("C02.neighbors", "get_neighbor_nodes", format!("get_neighbor_nodes({:?}) = {:?}, expected the set {:?}", x, v, exp));
+                    }
+                }
+                Err(e) => c.fail("C02.neighbors", "get_neighbor_nodes failed", format!("get_neighbor_nodes({:?}) failed with {:?}", x, e.kind)),
+            }
+            // no error channel: existing names only
+            let v = q!("get_successors_or_neighbors", names_of(&g.get_successors_or_neighbors(x.clone())));
+            let exp2 = succ_of(x);
+            if has_dups(&v) || sorted(v.clone()) != exp2 {
+                c.fail("C02.successors_or_neighbors", "get_successors_or_neighbors", format!("get_successors_or_neighbors({:?}) = {:?}, expected the set {:?}", x, v, exp2));
+            }
+            let bfs = q!("breadth_first_search", g.breadth_first_search(x));
+            // reachable set over successors / neighbours
+            let mut reach: BTreeSet<String> = BTreeSet::new();
+            let mut stack = vec![x.clone()];
+            while let Some(y) = stack.pop() {
+                if reach.insert(y.clone()) {
+                    stack.extend(succ_of(&y));
+                }
+            }
+            if bfs.first() != Some(x) || has_dups(&bfs) || bfs.iter().cloned().collect::<BTreeSet<_>>() != reach {
+                c.fail("C02.bfs", "breadth_first_search", format!("breadth_first_search({:?}) = {:?}, expected {:?} first and then exactly {:?}", x, bfs, x, reach));
+            }
+        }
+        if !c.cx.viol.is_empty() {
+            return;
+        }
+    }
+
+    // ---- node sets --------------------------------------------------------------------------
+    let mut rng = Rng::new(case.seed ^ (step as u64).wrapping_mul(0x9E37), "c02.subsets");
+    for _ in 0..3 {
+        let k = rng.range(0, 3.min(universe.len()));
+        let mut set: Vec<String> = (0..k).map(|_| rng.pick(&universe).clone()).collect();
+        if rng.chance(3, 4) {
+            set.retain(|x| has(x));
+        }
+        let all_present = set.iter().all(|x| has(x));
+        let hn = q!("has_nodes", g.has_nodes(&set));
+        if hn != all_present {
+            c.fail("C02.has_nodes", "has_nodes", format!("has_nodes({:?}) = {}, expected {}", set, hn, all_present));
+        }
+        let inset = |x: &String| set.contains(x);
+        let r = q!("get_edges_for_nodes", g.get_edges_for_nodes(&set).map(|v| canon_real(directed, &v)));
+        if !all_present {
+            c.expect_err("get_edges_for_nodes", &format!("{:?}", set), &r, &[K::NodeNotFound]);
+        } else {
+            let exp = canon_model(directed, m.edges.iter().filter(|e| inset(&e.u) || inset(&e.v)));
+            if r.as_ref().ok() != Some(&exp) {
+                c.fail("C02.edges_for_nodes", "get_edges_for_nodes", format!("get_edges_for_nodes({:?}) = {:?}, expected {:?}", set, r.map(|v| lifecycle::show_edges(&v)).map_err(|e| e.kind), lifecycle::show_edges(&exp)));
+            }
+        }
+        for (api, is_in) in [("get_in_edges_for_nodes", true), ("get_out_edges_for_nodes", false)] {
+            let r = q!(api, if is_in { g.get_in_edges_for_nodes(&set) } else { g.get_out_edges_for_nodes(&set) }.map(|v| canon_real(directed, &v)));
+            if !directed {
+                let kinds: &[K] = if all_present { &[K::WrongMethod] } else { &[K::WrongMethod, K::NodeNotFound] };
+                c.expect_err(api, &format!("{:?} on an undirected graph", set), &r, kinds);
+            } else if !all_present {
+                c.expect_err(api, &format!("{:?}", set), &r, &[K::NodeNotFound]);
+            } else {
+                let exp = canon_model(true, m.edges.iter().filter(|e| if is_in { inset(&e.v) } else { inset(&e.u) }));
+                if r.as_ref().ok() != Some(&exp) {
+                    c.fail("C02.in_out_edges_for_nodes", api, format!("{}({:?}) = {:?}, expected {:?}", api, set, r.map(|v| lifecycle::show_edges(&v)).map_err(|e| e.kind), lifecycle::show_edges(&exp)));
+                }
+            }
+        }
+    }
+
+    // ---- maps -------------------------------------------------------------------------------
+    let smap: Vec<(String, Vec<String>)> = q!("get_successors_map", g.get_successors_map().iter().map(|(k, v)| (k.clone(), sorted(v.iter().cloned().collect()))).collect());
+    let pmap: Vec<(String, Vec<String>)> = q!("get_predecessors_map", g.get_predecessors_map().iter().map(|(k, v)| (k.clone(), sorted(v.iter().cloned().collect()))).collect());
+    for (k, _) in smap.iter().chain(pmap.iter()) {
+        if !has(k) {
+            c.fail("C02.adjacency_map", "map key is not a node", format!("an adjacency map has key {:?}, which is not a node", k));
+        }
+    }
+    for x in &node_names {
+        let got = smap.iter().find(|(k, _)| k == x).map(|(_, v)| v.clone()).unwrap_or_default();
+        if got != succ_of(x) {
+            c.fail("C02.adjacency_map", "get_successors_map", format!("get_successors_map()[{:?}] = {:?}, expected {:?}", x, got, succ_of(x)));
+        }
+        let gotp = pmap.iter().find(|(k, _)| k == x).map(|(_, v)| v.clone()).unwrap_or_default();
+        if directed {
+            if gotp != pred_of(x) {
+                c.fail("C02.adjacency_map", "get_predecessors_map", format!("get_predecessors_map()[{:?}] = {:?}, expected {:?}", x, gotp, pred_of(x)));
+            }
+        } else if !gotp.is_empty() && gotp != pred_of(x) {
+            // undirected: documented as unused; accepted if empty or equal to the neighbour map
+            c.fail("C02.adjacency_map", "get_predecessors_map undirected", format!("get_predecessors_map()[{:?}] = {:?} on an undirected graph: neither empty nor the neighbour set {:?}", x, gotp, pred_of(x)));
+        }
+    }
+    let ehw = q!("edges_have_weight", g.edges_have_weight());
+    let exp = m.edges.iter().all(|e| !f64::from_bits(e.w).is_nan());
+    if ehw != exp {
+        c.fail("C02.edges_have_weight", "edges_have_weight", format!("edges_have_weight() = {}, expected {}", ehw, exp));
+    }
+    c.cx.count("view_checks");
+    #[cfg(graphrs_verif)]
+    {
+        let snap = q!("verif_snapshot", g.verif_snapshot());
+        whitebox(&snap, m, &mut c);
+    }
+}
+
+/// White-box (hook) part: the twelve private indexes agree with each other and with the stored edges.
+#[cfg(graphrs_verif)]
+fn whitebox(s: &graphrs::VerifSnapshot<String>, m: &Model, c: &mut Chk) {
+    let directed = m.specs.directed;
+    let n = s.nodes_vec.len();
+    let names: Vec<String> = m.nodes.iter().map(|x| x.0.clone()).collect();
+    if s.nodes_vec != names {
+        c.fail("C02.index.nodes", "nodes_vec", format!("nodes_vec {:?} vs public node list {:?}", s.nodes_vec, names));
+        return;
+    }
+    let mut nm: Vec<(String, usize)> = names.iter().cloned().enumerate().map(|(i, x)| (x, i)).collect();
+    nm.sort();
+    if s.nodes_map != nm {
+        c.fail("C02.index.nodes", "nodes_map", format!("nodes_map {:?} does not invert nodes_vec {:?}", s.nodes_map, names));
+    }
+    let rev: Vec<(usize, String)> = names.iter().cloned().enumerate().collect();
+    if s.nodes_map_rev != rev {
+        c.fail("C02.index.nodes", "nodes_map_rev", format!("nodes_map_rev {:?} does not match nodes_vec {:?}", s.nodes_map_rev, names));
+    }
+    if s.successors_vec.len() != n || s.predecessors_vec.len() != n {
+        c.fail("C02.index.adjacency", "adjacency vec length", format!("successors_vec/predecessors_vec have {} / {} rows for {} nodes", s.successors_vec.len(), s.predecessors_vec.len(), n));
+        return;
+    }
+    let pos = |x: &String| names.iter().position(|y| y == x);
+    // name-keyed store: key == endpoints of every stored edge; undirected keys are name-ordered
+    let mut by_pos_from_names: Vec<((usize, usize), Vec<(String, String, u64)>)> = vec![];
+    for ((ku, kv), list) in &s.edges {
+        if list.is_empty() {
+            c.fail("C02.index.edges", "empty edge list", format!("edges[({:?},{:?})] is an empty list", ku, kv));
+        }
+        for (u, v, _) in list {
+            if (u, v) != (ku, kv) {
+                c.fail("C02.index.edges", "edges key vs edge", format!("edges[({:?},{:?})] holds an edge ({:?},{:?})", ku, kv, u, v));
+            }
+        }
+        if !directed && ku > kv {
+            c.fail("C02.index.edges", "edges key orientation", format!("undirected key ({:?},{:?}) is not name-ordered", ku, kv));
+        }
+        match (pos(ku), pos(kv)) {
+            (Some(a), Some(b)) => {
+                let k = if !directed && a > b { (b, a) } else { (a, b) };
+                by_pos_from_names.push((k, list.iter().map(|(u, v, w)| (u.clone(), v.clone(), wbits(*w))).collect()));
+            }
+            _ => c.fail("C02.index.edges", "edges key not a node", format!("edges key ({:?},{:?}) names a node that does not exist", ku, kv)),
+        }
+    }
+    by_pos_from_names.sort_by(|a, b| a.0.cmp(&b.0));
+    let by_pos: Vec<((usize, usize), Vec<(String, String, u64)>)> = s.edges_map.iter().map(|(k, l)| (*k, l.iter().map(|(u, v, w)| (u.clone(), v.clone(), wbits(*w))).collect())).collect();
+    if by_pos != by_pos_from_names {
+        c.fail("C02.index.edges", "edges vs edges_map", format!("the name-keyed store translated to positions {:?} differs from the position-keyed store {:?}", by_pos_from_names, by_pos));
+    }
+    // adjacency by name / by position / vec all describe the stored edges
+    let mut succ: Vec<BTreeSet<usize>> = vec![BTreeSet::new(); n];
+    let mut pred: Vec<BTreeSet<usize>> = vec![BTreeSet::new(); n];
+    for e in &m.edges {
+        if let (Some(a), Some(b)) = (pos(&e.u), pos(&e.v)) {
+            succ[a].insert(b);
+            if directed {
+                pred[b].insert(a);
+            } else {
+                succ[b].insert(a);
+            }
+        }
+    }
+    for i in 0..n {
+        let name_set = |v: &Vec<(String, Vec<String>)>| -> BTreeSet<usize> { v.iter().find(|(k, _)| k == &names[i]).map(|(_, l)| l.iter().filter_map(|x| pos(x)).collect()).unwrap_or_default() };
+        let idx_set = |v: &Vec<(usize, Vec<usize>)>| -> BTreeSet<usize> { v.iter().find(|(k, _)| *k == i).map(|(_, l)| l.iter().copied().collect()).unwrap_or_default() };
+        let vec_set = |v: &Vec<Vec<(usize, f64)>>| -> BTreeSet<usize> { v[i].iter().map(|x| x.0).collect() };
+        for (what, got, exp) in [
+            ("successors", name_set(&s.successors), &succ[i]),
+            ("successors_map", idx_set(&s.successors_map), &succ[i]),
+            ("successors_vec", vec_set(&s.successors_vec), &succ[i]),
+            ("predecessors", name_set(&s.predecessors), &pred[i]),
+            ("predecessors_map", idx_set(&s.predecessors_map), &pred[i]),
+            ("predecessors_vec", vec_set(&s.predecessors_vec), &pred[i]),
+        ] {
+            if &got != exp {
+                c.fail("C02.index.adjacency", what, format!("{} of node {:?} (position {}) is {:?}, the stored edges give {:?}", what, names[i], i, got, exp));
+            }
+        }
+    }
+    c.cx.count("whitebox_checks");
+}
+
+impl Prop for C02Prop {
+    fn id(&self) -> &'static str {
+        "C02"
+    }
+    fn runs(&self, tier: Tier) -> u64 {
+        match tier {
+            Tier::Quick => 60_000,
+            Tier::Thorough => 1_200_000,
+        }
+    }
+    fn gen(&self, seed: u64, idx: u64, _tier: Tier) -> Case {
+        let mut rng = Rng::new(seed, "config");
+        let specs = Specs::from_index(idx as usize % 96);
+        let mut case = Case::new("C02", seed, specs);
+        let o = gen::HistOpts { specs, max_ops: 24, regime: gen::regime_any(&mut rng, true), derived: rng.chance(1, 3), restart: true, names_min: 3, names_max: 6, dup_bias: 30 };
+        let mut wr = Rng::new(seed, "workload");
+        case.ops = gen::gen_history(&mut wr, &o);
+        case.envs = gen::keyings(seed, 2).into_iter().map(|k| Env { keying: k, pool: 1, sched: 0 }).collect();
+        case
+    }
+    fn run_env(&self, case: &Case, _env: &Env, cx: &mut Ctx) {
+        let arms = Arms { c02: true, ..Default::default() };
+        if let Some((_g, m, _)) = lifecycle::drive(case, cx, &arms) {
+            let parallel = m.specs.multi && m.edges.iter().enumerate().any(|(i, e)| m.edges[..i].iter().any(|f| m.joins(f, &e.u, &e.v)));
+            let order_differs = {
+                let n: Vec<&String> = m.nodes.iter().map(|n| &n.0).collect();
+                n.windows(2).any(|w| w[0] > w[1])
+            };
+            if !m.edges.is_empty() && (parallel || order_differs) {
+                cx.nt.push(crate::core::rng::mix(case.specs.index() as u64, lifecycle::ops_hash(&case.ops)));
+            }
+            if order_differs {
+                cx.count("probe.name_order_differs_from_insertion_order");
+            }
+        }
+    }
+    fn cross(&self, _case: &Case, _results: &[EnvResult], _cx: &mut Ctx) {}
+    fn rule(&self) -> String {
+        "lifecycle histories (<= 24 ops, incl. derived-graph operations in 1/3 of the runs) stratified over all 96 GraphSpecs, under 2 hash keyings; after EVERY op every read API is queried for every ordered pair of the name universe plus two absent names, every node, random node sets, both adjacency maps, BFS, and compared with the answer derived from the node list and edge multiset; with the hook the 12 private indexes are compared with each other. distinct_nontrivial = distinct (specs, history) whose final graph has edges and either parallel edges or a name order different from the insertion order".into()
+    }
+    fn assumptions(&self) -> Vec<String> {
+        vec![
+            "order inside hash-ordered results is not compared; only parallel edges of one pair have a specified order".into(),
+            "get_predecessors_map on undirected graphs: accepted if empty or equal to the neighbour map".into(),
+            "a call wrong for two reasons (absent name on the wrong kind of graph) may report either".into(),
+        ]
+    }
+}
